@@ -116,19 +116,22 @@ check("C02", "PVM",
 check("C04", "PVM",
       rule="part A: compiler-like programs run by the block engine with EVERY gas limit g in 0..S+1 (S = model steps to termination, 300 for looping programs) and compared with refpvm run with the same g (exit, remaining gas, registers, memory, pc); "
            "part B: Psi_M on standard programs (random o/w/z/s, argument) with limits {4 random < 150} + 2 of {2^31, 2^32, 2^62, 2^63-1, 2^63, 2^63+1, 2^64-1} and recording omegas charging 10: reported gas used must be within [0, limit], equal limit - max(remaining,0) of the model, result kind equal. "
-           "Host-call charges of the real omegas are monitored in C07's omega wrapper (gas -10, transfer -10-l). distinct_nontrivial = distinct programs with >= 2 steps + distinct (program, wrapper) pairs",
-      technique="reference-model monitor at every gas limit 0..S+1 (gas-stepping) + invocation-result monitor for Psi_M with limits up to 2^64-1",
+           "part C: sequences of 1..40 calls of the REAL accumulate/refine host calls on a generated context (the C07 driver): every call costs exactly 10, a call with gas < 10 is out-of-gas without effects, a successful transfer costs 10 + l in exact unsigned arithmetic and l may not exceed the gas left (l drawn from small values, around the remaining gas, the 64-bit boundary pool and around 2^63). "
+           "distinct_nontrivial = distinct programs with >= 2 steps + distinct (program, wrapper) pairs + host-call sequences",
+      technique="reference-model monitor at every gas limit 0..S+1 (gas-stepping) + invocation-result monitor for Psi_M with limits up to 2^64-1 + charge monitor wrapped around the real host-call tables",
       level_text="Every prefix of every generated execution is checked by running it with each smaller gas limit; reported usage is checked up to the largest representable limit. Held = no divergence on what was explored.",
-      note=PVM_NOTE, shards=(8, 16), floors={"any": {"limit_runs": 50000, "oog_strictly_inside": 20000, "psim_runs": 8000, "psim_limits_ge_2^63": 500}})
+      note=PVM_NOTE, shards=(8, 16), floors={"any": {"limit_runs": 50000, "oog_strictly_inside": 20000, "psim_runs": 8000, "psim_limits_ge_2^63": 500, "calls": 50000, "transfer_calls_ok": 300, "transfer_calls_oog": 100, "transfer_calls_with_l_ge_2^63": 100}})
 
 check("C05", "PVM",
       rule="part A: straight-line programs of loads/stores of every width and addressing form (direct, immediate, indirect, immediate-indirect) aimed at +-10 bytes around the edges of read-write, read-only and unmapped pages, 2^16 and the top of the address space; the block engine is run with gas 0,1,2,... and every pair of consecutive states is checked against a shadow page map: "
            "an access that is not permitted (or touches < 2^16) must not complete, must panic (< 2^16) or page-fault, and must leave registers and memory unchanged; a permitted access must complete with exactly the expected register / byte changes; any other opcode must leave memory unchanged. "
-           "part B: sbrk sequences on SingleInitializer-built memory (increments 0, 1, page+-1, small, just beyond the limit, 2^32, 2^64-1): only sbrk adds pages, new pages are zero, read-write, inside [old heap pointer page, new heap pointer page] and below the stack boundary, existing pages untouched, a granted range is writable, a refused request maps nothing. distinct_nontrivial = distinct programs",
-      technique="invariant monitor on consecutive machine states obtained by gas-stepping (shadow page map frame conditions for loads, stores, sbrk and all other opcodes)",
+           "part B: sbrk sequences on SingleInitializer-built memory (increments 0, 1, page+-1, small, just beyond the limit, 2^32, 2^64-1): only sbrk adds pages, new pages are zero, read-write, inside [old heap pointer page, new heap pointer page] and below the stack boundary, existing pages untouched, a granted range is writable, a refused request maps nothing. "
+           "part C: a script of 2..8 page calls (modes 0..4 over pages 16, 30..36, 47..51, access withdrawn again in a third of the later calls) is executed through the REAL machine / pages / poke host calls on an inner machine; the resulting page map must equal the GP model of `pages` (inaccessible / read-only / read-write, refused when modes 3/4 meet an inaccessible page), nothing outside the ranges may be mapped, "
+           "and a load/store program aimed at the edges of exactly those pages is then gas-stepped under the same frame monitor on a copy of the inner machine's memory (step engine and block engine alternately). distinct_nontrivial = distinct programs (+ page-call scripts)",
+      technique="invariant monitor on consecutive machine states obtained by gas-stepping (shadow page map frame conditions for loads, stores, sbrk and all other opcodes), on generated page maps and on page maps built by the real inner-machine host calls",
       level_text="Frame conditions derived from the page map alone are asserted on every executed instruction of generated memory-heavy programs. Held = no violated invariant on what was explored.",
-      note="Operands are decoded with refpvm.Decode (independent of refpvm.Step). Present-but-inaccessible pages are not generated: no reachable constructor produces them today (the pages host call never leaves one). A growth up to the limit itself (~4 GiB of pages) is not explored. Accesses wrapping past 2^32 are not judged (U14).",
-      shards=(8, 16), floors={"any": {"loads_completed": 3000, "stores_completed": 5000, "faulting_accesses_load": 1000, "faulting_accesses_store": 3000, "cross_page_accesses_completed": 50, "sbrk_grown": 2000, "sbrk_refused": 2000}})
+      note="Operands are decoded with refpvm.Decode (independent of refpvm.Step). Present-but-inaccessible page objects are not planted by hand; whatever the real pages host call leaves behind is what part C runs on. A growth up to the limit itself (~4 GiB of pages) is not explored. Accesses wrapping past 2^32 are not judged (U14).",
+      shards=(8, 16), floors={"any": {"loads_completed": 3000, "stores_completed": 5000, "faulting_accesses_load": 1000, "faulting_accesses_store": 3000, "cross_page_accesses_completed": 50, "sbrk_grown": 2000, "sbrk_refused": 2000, "inner_page_maps": 3000, "inner_page_maps_with_withdrawn_pages": 1500}})
 
 check("C03", "PVM",
       rule="case = one untrusted byte string derived from a valid program (compiler-like / hostile blob, standard-program wrapper) by one or two of {none, truncation, bit flips, natural-number field := boundary value, 32-bit length field := boundary value, random bytes, garbage suffix, byte := 00/FF}, plus EVERY truncation of a few valid blobs, "
